@@ -84,3 +84,16 @@ add("C17", "exploration", "property-based testing (Hypothesis): generated packag
     "os.environ is replaced in-process and always restored; unspecified corners (empty values, cyclic references, "
     "selecting 'environment' when undefined) accept both behaviours, listed in evidence assumptions.",
     "DESIGN.md section 3, C17")
+
+add("C18", "fault_enumeration", "property-based testing with hostile-input enumeration (Hypothesis + a deterministic "
+    "catalogue): generated archives/manifests; file-system snapshot diff of everything outside the target; independent "
+    "virtual-file-system model classifying each input as escaping or clean",
+    "Real Job.stageIn (copy/link/extract references on an instantiated experiment) and real package deployment "
+    "(expandPackageToDirectory / packageFromLocation + newInstanceDirectory, Manifest.validate) run on generated tar "
+    "archives (.. segments, absolute names, symlink/hardlink members, chains, links staged by other references) and "
+    "manifests (.. keys, nested keys, keys below linked folders) inside a per-case sandbox; a recursive lstat snapshot of "
+    "everything outside the target must be unchanged, escaping inputs must be rejected with the staging/packaging error "
+    "types, and each hostile case's benign twin must still stage correctly. A 1572-case catalogue (technique x climb x "
+    "landing x position x tar format) is enumerated on every run.",
+    "The kernel-like path-resolution model in vf/fault/c18_vfs.py is trusted to classify inputs; device members and "
+    "manifest keys conf/input/stages/output are outside the domain.", "DESIGN.md section 3, C18")
